@@ -14,3 +14,4 @@ import FinProtoc.Load
 import FinProtoc.Sample
 import FinProtoc.Visit
 import FinProtoc.VisitDump
+import FinProtoc.Fmt
